@@ -181,9 +181,14 @@ fn extract_class(
         parent_names
     };
 
+    // Positions may coincide (a method is placed two further than it stands): ties are
+    // broken the same way on every run, fields first, instead of by hash order.
     let body_stmts: Vec<Core> = body_name_stmts
         .values()
-        .sorted_by_key(|(pos, _)| *pos)
+        .sorted_by_key(|(pos, stmt)| {
+            let is_function = matches!(stmt, Core::FunDef { .. } | Core::FunDefOp { .. });
+            (*pos, is_function, format!("{stmt}"))
+        })
         .map(|(_, stmt)| stmt.clone())
         .collect();
 
